@@ -115,6 +115,16 @@ OrphanedOnValidator(s, v, a) ==
 UnbEntries(s) == {<<k, i>> : k \in DOMAIN s.unbQ, i \in 1..0} \cup UNION {{<<k, i>> : i \in DOMAIN s.unbQ[k]} : k \in DOMAIN s.unbQ}
 UnbSum(s, a) == BSum({x \in UnbEntries(s) : s.unbQ[x[1]][x[2]].a = a}, LAMBDA x : s.unbQ[x[1]][x[2]].bal)
 
+\* K13: x/staking removed validator v (no native delegation left, unbonding matured) while alliance positions were still
+\* delegated to it; the hook deletes the module's validator record and the positions can neither claim nor leave.
+\* gh.orphans maps each such validator to the per-asset validator shares its record held when it was deleted
+OrphanShares(gh, a) == BSum(DOMAIN gh.orphans, LAMBDA v : Get(gh.orphans[v], a))
+OrphansOf(gh, pre, post) ==
+  LET gone == {v \in DOMAIN pre.env.vals : v \in DOMAIN post.env.vals /\ pre.env.vals[v].status # "removed" /\ post.env.vals[v].status = "removed"
+                                           /\ v \in DOMAIN pre.vals /\ \E k \in DOMAIN post.dels : k[2] = v}
+      keep == {v \in DOMAIN gh.orphans : \E k \in DOMAIN post.dels : k[2] = v}
+  IN  [v \in keep \cup gone |-> IF v \in gone THEN pre.vals[v].vshares ELSE gh.orphans[v]]
+
 -----------------------------------------------------------------------------
 (* C01 custody *)
 C01_State(s, gh) ==
@@ -127,14 +137,16 @@ C01_State(s, gh) ==
 
 -----------------------------------------------------------------------------
 (* C03 share ledger *)
-C03_State(s) ==
+C03_State(s, gh) ==
   LET va == {<<k[2], k[3]>> : k \in DOMAIN s.dels} \cup UNION {{<<v, a>> : a \in DOMAIN s.vals[v].dshares} : v \in DOMAIN s.vals}
       dsum(x) == BSum(PositionsOn(s, x[1], x[2]), LAMBDA k : s.dels[k].shares)
       vsum(a) == BSum(DOMAIN s.vals, LAMBDA v : Get(s.vals[v].vshares, a))
-  IN  UNION {Check("C03", x[1] \in DOMAIN s.vals /\ dsum(x) = Get(s.vals[x[1]].dshares, x[2]),
+  IN  UNION {CheckK("C03", x[1] \in DOMAIN s.vals /\ dsum(x) = Get(s.vals[x[1]].dshares, x[2]),
+                   IF x[1] \in DOMAIN gh.orphans /\ x[1] \notin DOMAIN s.vals THEN "K13" ELSE "",
                    "delegator shares on " \o x[1] \o "/" \o x[2] \o " sum to " \o dsum(x) \o " but the validator records " \o
                    (IF x[1] \in DOMAIN s.vals THEN Get(s.vals[x[1]].dshares, x[2]) ELSE "no info record")) : x \in va}
-      \cup UNION {Check("C03", vsum(a) = s.assets[a].vshares,
+      \cup UNION {CheckK("C03", vsum(a) = s.assets[a].vshares,
+                   IF IsPos(OrphanShares(gh, a)) /\ BAdd(vsum(a), OrphanShares(gh, a)) = s.assets[a].vshares THEN "K13" ELSE "",
                    "validator shares of " \o a \o " sum to " \o vsum(a) \o " but the asset records " \o s.assets[a].vshares) : a \in DOMAIN s.assets}
       \cup UNION {Check("C03", ~IsNeg(s.dels[k].shares), "negative delegation shares") : k \in DOMAIN s.dels}
       \cup UNION {Check("C03", \A a \in DOMAIN s.vals[v].vshares : ~IsNeg(s.vals[v].vshares[a]), "negative validator shares") : v \in DOMAIN s.vals}
@@ -142,7 +154,7 @@ C03_State(s) ==
       \cup UNION {Check("C03", ~IsNeg(s.assets[a].vshares) /\ ~IsNeg(s.assets[a].total), "negative asset total") : a \in DOMAIN s.assets}
       \cup UNION {Check("C03", IsZero(s.assets[a].total) => IsZero(s.assets[a].vshares) /\ \A v \in DOMAIN s.vals : IsZero(Get(s.vals[v].vshares, a)),
                    "asset " \o a \o " has a staked total of zero but share records remain") : a \in DOMAIN s.assets}
-      \cup Check("C03", ~s.invBroken, "the module's own registered invariants report broken")
+      \cup CheckK("C03", ~s.invBroken, IF DOMAIN gh.orphans # {} THEN "K13" ELSE "", "the module's own registered invariants report broken")
 
 -----------------------------------------------------------------------------
 (* C14 / C16 asset validity (state part) *)
@@ -190,7 +202,7 @@ C02_State(s) ==
 \*          (C13 does not speak about those; C12 does)
 \* nacc:    position -> number of accruals since its last claim (index resolution allowance)
 GhostInit == [unb |-> <<>>, red |-> <<>>, stall |-> FALSE, dep |-> <<>>, slashed |-> FALSE, k2 |-> NoCoins, stuck |-> NoCoins,
-              ent |-> <<>>, taint |-> {}, nacc |-> <<>>, prevEnd |-> -1, diverged |-> ""]
+              ent |-> <<>>, taint |-> {}, nacc |-> <<>>, prevEnd |-> -1, diverged |-> "", zeroed |-> {}, orphans |-> <<>>]
 LedgerOfState(s) ==
   LET xs == SortBy(UnbEntries(s), LAMBDA x : <<x[1][1], DelIdx(x[1][2]), x[2]>>)
   IN  [i \in DOMAIN xs |-> [d |-> s.unbQ[xs[i][1]][xs[i][2]].d, v |-> s.unbQ[xs[i][1]][xs[i][2]].v, a |-> s.unbQ[xs[i][1]][xs[i][2]].a,
@@ -219,6 +231,9 @@ StoreView(s) == [params |-> s.params, assets |-> s.assets, vals |-> s.vals, dels
 \* the time queue is only used to find the records to delete at maturity: multiplicity and balances of its entries are unobservable
 QueueView(s) == [t \in DOMAIN s.redQ |-> {<<s.redQ[t][i].d, s.redQ[t][i].src, s.redQ[t][i].dst, s.redQ[t][i].a>> : i \in DOMAIN s.redQ[t]}]
 ObsView(s) == [StoreView(s) EXCEPT !.redQ = QueueView(s)]
+\* K3: the validator records delegator shares of the asset but holds no tokens of it (after a 100 % slash); the share
+\* conversion of a new deposit divides by zero
+ZeroValued(s, v, a) == a \in DOMAIN s.assets /\ (NewDelSharesPanics(s.assets[a], Info(s, v), a) \/ ValidatorSharesDivZero(s.assets[a]))
 MergedAny(red) == \E i, j \in DOMAIN red : red[i].d = red[j].d /\ red[i].dst = red[j].dst /\ red[i].a = red[j].a /\ red[i].due = red[j].due /\ red[i].src # red[j].src
 \* ---- C13 entitlement ledger ----
 RatCoinsAdd(f, g) == [k \in DOMAIN f \cup DOMAIN g |-> RAdd(IF k \in DOMAIN f THEN f[k] ELSE RZero, IF k \in DOMAIN g THEN g[k] ELSE RZero)]
@@ -274,7 +289,7 @@ NaccNext(gh, pre, rec, post) ==
       vs == SettledVals(pre, post)
   IN  [k \in DOMAIN post.dels |-> (IF k \in DOMAIN gh.nacc /\ k \notin cl THEN gh.nacc[k] ELSE 0) + (IF k[2] \in vs /\ k \notin cl THEN 1 ELSE 0)]
 
-GhostNext(gh, pre, rec, post) ==
+GhostNext(gh, pre, rec, post, conforms) ==
   LET e == rec.args
       unb1 == CASE rec.ev = "Undelegate" /\ rec.res.ok ->
                      Append(gh.unb, [d |-> e.d, v |-> e.v, a |-> e.a, amt |-> e.x, due |-> pre.now + pre.env.unbonding])
@@ -320,6 +335,15 @@ GhostNext(gh, pre, rec, post) ==
   IN  [unb |-> unb2, red |-> red1, stall |-> stall2, dep |-> dep2, slashed |-> slashed2, k2 |-> k22, stuck |-> stuck2,
        ent |-> EntNext(gh, pre, rec, post), taint |-> TaintNext(gh, pre, rec, post), nacc |-> NaccNext(gh, pre, rec, post),
        prevEnd |-> IF rec.ev = "EndBlock" THEN pre.now ELSE gh.prevEnd,
+       \* K3: <<validator, asset>> pairs that became zero-valued (delegator shares recorded, no token value) in a step that
+       \* conformed to the specification, i.e. in one of the ways the code is known to produce such a validator (a 100 % slash,
+       \* redelegation of worthless shares, a withdrawal whose conversion error exceeds what the small positions left behind
+       \* are worth); a pair that got there in any other way is not excused
+       zeroed |-> LET fresh == IF conforms
+                               THEN {x \in (DOMAIN post.env.vals) \X (DOMAIN post.assets) : ZeroValued(post, x[1], x[2]) /\ ~ZeroValued(pre, x[1], x[2])}
+                               ELSE {}
+                  IN  {x \in gh.zeroed \cup fresh : ZeroValued(post, x[1], x[2])},
+       orphans |-> OrphansOf(gh, pre, post),
        \* lock-step (C18): once the re-imported sibling has diverged through a merged redelegation record (K4) it stays diverged
        diverged |-> IF rec.ev = "ForkImport" THEN ""
                     ELSE IF Len(rec.mirror) = 1 /\ MergedAny(gh.red) /\ ObsView(NormState(rec.mirror[1].post)) # ObsView(post) THEN "K4"
@@ -537,7 +561,11 @@ K2Resolution(s, rd) ==
        LAMBDA k : LET vh == s.vals[k[2]].hist  key == <<k[3], rd>>
                       out == IF key \in DOMAIN vh THEN BSub(vh[key], IF key \in DOMAIN s.dels[k].hist THEN s.dels[k].hist[key] ELSE "0") ELSE "0"
                       q == BMax("1", CeilDiv(TruncInt(ValTokens(s.assets[k[3]], s.vals[k[2]], k[3])), ONE))
-                  IN  IF IsPos(out) THEN CeilDiv(BMul(q, out), ONE) ELSE "0")
+                      \* and the validator's own tokens are known only to 10^-18 of the asset's total (its share of the asset is an
+                      \* 18-digit quotient): a validator holding a few 10^-18 of an asset is valued in steps of total/10^18 tokens,
+                      \* and the value at the time of the claim need not be the value the reward was indexed with
+                      q2 == CeilDiv(s.assets[k[3]].total, ONE)
+                  IN  IF IsPos(out) THEN CeilDiv(BMul(BAdd(q, q2), out), ONE) ELSE "0")
 PoolExplained(s, rec, gh) ==
   IF gh.slashed THEN "K1"
   ELSE IF \A rd \in DOMAIN s.bank.rewards \cup DOMAIN gh.k2 \cup UNION {{p.paid[i].a : i \in DOMAIN p.paid} : p \in ClaimProbes(rec)}
@@ -548,12 +576,10 @@ PoolExplained(s, rec, gh) ==
                       \* 10^-9 relative only): one part in 10^9 of what is at stake
                       BQuo(BAdd(BAdd(Get(s.bank.rewards, rd), PendingIn(s, rd)), ModelClaimable(s, rd)), "1000000000"))) THEN "K2"
   ELSE ""
-\* K3: the validator records delegator shares of the asset but holds no tokens of it (after a 100 % slash); the share
-\* conversion of a new deposit divides by zero
-ZeroValued(s, v, a) == a \in DOMAIN s.assets /\ (NewDelSharesPanics(s.assets[a], Info(s, v), a) \/ ValidatorSharesDivZero(s.assets[a]))
 ProbeKF(s, rec, gh, p) ==
   IF p.errc = "funds" THEN PoolExplained(s, rec, gh)
-  ELSE IF p.errc = "divzero" /\ p.kind = "delegate" /\ ZeroValued(s, p.v, p.a) THEN "K3"
+  ELSE IF p.errc = "divzero" /\ p.kind = "delegate" /\ ZeroValued(s, p.v, p.a) /\ <<p.v, p.a>> \in gh.zeroed THEN "K3"
+  ELSE IF p.errc = "novalidator" /\ p.kind \in {"claim", "exit"} /\ p.v \in DOMAIN gh.orphans THEN "K13"
   ELSE ""
 C05_Probes(s, rec, gh) ==
   UNION {IF p.kind = "delegate" THEN CheckK("C05", p.ok, ProbeKF(s, rec, gh, p), "a user cannot delegate " \o p.x \o " " \o p.a \o " to " \o p.v \o ": " \o p.err)
@@ -565,7 +591,7 @@ C12_Probes(s, rec, gh) ==
   LET rds == UNION {{p.paid[i].a : i \in DOMAIN p.paid} : p \in ClaimProbes(rec)}
       hasAll == \E p \in ProbeSet(rec) : p.kind = "claimAll"
       kf == PoolExplained(s, rec, gh)
-  IN  UNION {CheckK("C12", p.ok, IF p.errc = "funds" THEN kf ELSE "", "claiming every position in order '" \o p.order \o "' fails: " \o p.err) : p \in {p \in ProbeSet(rec) : p.kind = "claimAll"}}
+  IN  UNION {CheckK("C12", p.ok, IF p.errc = "funds" THEN kf ELSE IF p.errc = "novalidator" /\ DOMAIN gh.orphans # {} THEN "K13" ELSE "", "claiming every position in order '" \o p.order \o "' fails: " \o p.err) : p \in {p \in ProbeSet(rec) : p.kind = "claimAll"}}
       \cup (IF hasAll THEN UNION {CheckK("C12", ~IsPos(Shortfall(s, rec, rd)), kf,
                          "positions can claim " \o Claimable(rec, rd) \o " " \o rd \o " in total but the rewards pool holds " \o Get(s.bank.rewards, rd) \o
                          " and the distribution module owes it " \o PendingIn(s, rd)) : rd \in rds}
@@ -805,15 +831,21 @@ BondedVShares(s, a) == BSum({v \in DOMAIN s.vals : IsBonded(s, v)}, LAMBDA v : G
 TargetRat(s, v) ==
   RSumSet({a \in DOMAIN s.assets : Started(s.assets[a], s.now) /\ IsPos(Get(Info(s, v).vshares, a)) /\ IsPos(BondedVShares(s, a))},
           LAMBDA a : RMul(RMul(Rat(s.assets[a].weight, ONE), Rat(NativeOf(s), ONE)), Rat(Get(Info(s, v).vshares, a), BondedVShares(s, a))))
+TargetRatOrphans(s, v, gh) ==
+  RSumSet({a \in DOMAIN s.assets : Started(s.assets[a], s.now) /\ IsPos(Get(Info(s, v).vshares, a)) /\ IsPos(BondedVShares(s, a))},
+          LAMBDA a : RMul(RMul(Rat(s.assets[a].weight, ONE), Rat(NativeOf(s), ONE)), Rat(Get(Info(s, v).vshares, a), BAdd(BondedVShares(s, a), OrphanShares(gh, a)))))
 WeightSum(s, v) == RSumSet({a \in DOMAIN s.assets : Started(s.assets[a], s.now) /\ IsPos(Get(Info(s, v).vshares, a))}, LAMBDA a : Rat(s.assets[a].weight, ONE))
-C10_Step(pre, rec, post) ==
+C10_Step(pre, rec, post, gh) ==
   IF rec.ev # "EndBlock" \/ ~rec.res.ok THEN {}
   ELSE UNION {CheckK("C10", Within(Rat(ModTok(post, v), ONE), TargetRat(post, v), "2"),
                      \* K7: the rebalancer computes the native bonded amount from per-validator truncated token amounts, rounds it
                      \* to whole units before multiplying by the reward weights and truncates the adjustment: the deviation is
                      \* bounded by 2 + (1 + number of validators carrying module stake) * sum of the weights
                      IF Within(Rat(ModTok(post, v), ONE), TargetRat(post, v),
-                               BAdd("2", BMul(BFromInt(1 + Cardinality({u \in BondedSet(pre) : HasMod(pre, u)})), RCeil(WeightSum(post, v))))) THEN "K7" ELSE "",
+                               BAdd("2", BMul(BFromInt(1 + Cardinality({u \in BondedSet(pre) : HasMod(pre, u)})), RCeil(WeightSum(post, v))))) THEN "K7"
+                     \* K13: the shares of removed validators stay in the asset's share total, which the rebalancer divides by
+                     ELSE IF DOMAIN gh.orphans # {} /\ Within(Rat(ModTok(post, v), ONE), TargetRatOrphans(post, v, gh),
+                               BAdd("2", BMul(BFromInt(1 + Cardinality({u \in BondedSet(pre) : HasMod(pre, u)})), RCeil(WeightSum(post, v))))) THEN "K13" ELSE "",
                     "after end-of-block, bonded validator " \o v \o " carries alliance stake " \o ModTok(post, v) \o "e-18, not the target within two units")
               : v \in {v \in BondedSet(post) : ~EnvVal(post, v).jailed}}
        \cup UNION {Check("C10", ~IsBonded(pre, v) /\ ~IsBonded(post, v) => ModTok(post, v) = ModTok(pre, v) /\ EnvVal(post, v).modShares = EnvVal(pre, v).modShares,
@@ -880,13 +912,19 @@ C20_Probes(s, rec, gh) ==
                                   "redelegations(" \o p.d \o "," \o p.a \o ") page size " \o ToString(p.limit) \o " does not return exactly the pending records")
       [] p.kind = "qRedByDel" -> Check("C20", p.ok /\ ItemBag(p.items, LAMBDA x : <<x.d, x.src, x.dst, x.a, x.x, x.t>>) = RedRefBag(s, LAMBDA k : k[1] = p.d),
                                   "redelegations by delegator (" \o p.d \o ") page size " \o ToString(p.limit) \o " does not return exactly the pending records")
-      [] p.kind = "qDelsByDel" -> Check("C20", p.ok /\ ItemBag(p.items, LAMBDA x : <<x.d, x.v, x.a, x.x, x.sh>>) = DelRefBag(s, LAMBDA k : k[1] = p.d),
+      [] p.kind = "qDelsByDel" -> CheckK("C20", p.ok /\ ItemBag(p.items, LAMBDA x : <<x.d, x.v, x.a, x.x, x.sh>>) = DelRefBag(s, LAMBDA k : k[1] = p.d),
+                                  IF ~p.ok /\ p.errc = "novalidator" /\ (\E k \in DOMAIN s.dels : k[1] = p.d /\ k[2] \in DOMAIN gh.orphans) THEN "K13" ELSE "",
                                   "delegations by delegator (" \o p.d \o ") page size " \o ToString(p.limit) \o " does not return exactly the delegation records")
-      [] p.kind = "qDelsByDelVal" -> Check("C20", p.ok /\ ItemBag(p.items, LAMBDA x : <<x.d, x.v, x.a, x.x, x.sh>>) = DelRefBag(s, LAMBDA k : k[1] = p.d /\ k[2] = p.v),
+      [] p.kind = "qDelsByDelVal" -> CheckK("C20", \/ p.ok /\ ItemBag(p.items, LAMBDA x : <<x.d, x.v, x.a, x.x, x.sh>>) = DelRefBag(s, LAMBDA k : k[1] = p.d /\ k[2] = p.v)
+                                                   \* a validator that x/staking has removed is reported as not found
+                                                   \/ ~p.ok /\ ~ValExists(s, p.v) /\ ~\E k \in DOMAIN s.dels : k[1] = p.d /\ k[2] = p.v,
+                                  IF ~p.ok /\ p.v \in DOMAIN gh.orphans THEN "K13" ELSE "",
                                   "delegations by delegator and validator does not return exactly the delegation records")
-      [] p.kind = "qAllDels" -> Check("C20", p.ok /\ ItemBag(p.items, LAMBDA x : <<x.d, x.v, x.a, x.x, x.sh>>) = DelRefBag(s, LAMBDA k : TRUE),
+      [] p.kind = "qAllDels" -> CheckK("C20", p.ok /\ ItemBag(p.items, LAMBDA x : <<x.d, x.v, x.a, x.x, x.sh>>) = DelRefBag(s, LAMBDA k : TRUE),
+                                  IF ~p.ok /\ p.errc = "novalidator" /\ DOMAIN gh.orphans # {} THEN "K13" ELSE "",
                                   "all delegations page size " \o ToString(p.limit) \o " does not return exactly the delegation records")
-      [] p.kind = "bindDelegation" -> Check("C20", p.ok /\ <<p.d, p.v, p.a>> \in DOMAIN s.bals /\ p.val = s.bals[<<p.d, p.v, p.a>>],
+      [] p.kind = "bindDelegation" -> CheckK("C20", p.ok /\ <<p.d, p.v, p.a>> \in DOMAIN s.bals /\ p.val = s.bals[<<p.d, p.v, p.a>>],
+                                  IF ~p.ok /\ p.errc = "novalidator" /\ p.v \in DOMAIN gh.orphans THEN "K13" ELSE "",
                                   "contract binding reports delegation amount " \o p.val \o ", the gRPC query another value")
       [] p.kind = "exit" -> CheckK("C20", p.ok, ProbeKF(s, rec, gh, p), "the reported balance " \o p.x \o " of " \o p.d \o " on " \o p.v \o "/" \o p.a \o " cannot be undelegated: " \o p.err)
       [] p.kind = "undelPlus" -> Check("C20", ~p.ok, "more than the reported balance (" \o p.x \o ") of " \o p.d \o " on " \o p.v \o "/" \o p.a \o " can be undelegated")
@@ -950,7 +988,7 @@ C19_Step(pre, rec, post) ==
 
 -----------------------------------------------------------------------------
 JudgeState(s, rec, gh) ==
-  C01_State(s, gh) \cup C03_State(s) \cup AssetValid_State(s) \cup C15_State(s) \cup C02_State(s) \cup C04_State(s)
+  C01_State(s, gh) \cup C03_State(s, gh) \cup AssetValid_State(s) \cup C15_State(s) \cup C02_State(s) \cup C04_State(s)
   \cup C05_Probes(s, rec, gh) \cup C12_Probes(s, rec, gh) \cup C20_Probes(s, rec, gh) \cup C11_Probes(s, rec) \cup C15_Probes(s, rec, gh)
 
 Judge(pre, rec, post, gh, gh2) ==
@@ -959,7 +997,7 @@ Judge(pre, rec, post, gh, gh2) ==
   \cup C08_Step(pre, rec, post, gh) \cup C06_Step(pre, rec, post, gh) \cup C04_Step(pre, rec, post)
   \cup C09_Step(pre, rec, post, gh) \cup C14_Step(pre, rec, post) \cup C14_Settle(pre, rec, post)
   \cup C15_Step(pre, rec, post, gh) \cup C16_Step(pre, rec, post) \cup C17_Step(pre, rec, post)
-  \cup C10_Step(pre, rec, post) \cup C11_Step(pre, rec, post, gh, gh2) \cup C18_Step(pre, rec, post, gh)
+  \cup C10_Step(pre, rec, post, gh2) \cup C11_Step(pre, rec, post, gh, gh2) \cup C18_Step(pre, rec, post, gh)
   \cup C13_Step(pre, rec, post, gh) \cup C19_Step(pre, rec, post) \cup C18_Mirror(pre, rec, post, gh)
 
 \* coverage tags: which property antecedents were exercised non-trivially at this step
